@@ -28,7 +28,7 @@ X = 6
 def case_strategy(draw, tier="quick"):
     return {"k": draw(st.sampled_from([1, 2, 2, 3])), "fmt": draw(st.sampled_from([1, 2, 5])), "safe": G.chance(draw, 20),
             "hcoll": G.chance(draw, 30), "fill": G.chance(draw, 60), "grow": draw(st.sampled_from([0, 60, 900])),
-            "recvars": draw(st.integers(1, 2)), "parts": sorted(draw(st.sets(st.sampled_from(["coll", "indep", "nb", "bput", "get", "fillrec", "redef", "reopen", "sync", "vard", "varn", "mixed", "redef_indep"]), min_size=3))),
+            "recvars": draw(st.integers(1, 2)), "parts": sorted(draw(st.sets(st.sampled_from(["coll", "indep", "nb", "bput", "get", "fillrec", "redef", "reopen", "sync", "vard", "varn", "mixed", "redef_indep", "meta"]), min_size=3))),
             "align": draw(st.sampled_from([0, 4, 512])), "seed": draw(st.integers(0, 1000))}
 
 
@@ -72,6 +72,8 @@ def build(case, upto=None, fault=None):
     if case["fill"]:
         A("def_var_fill", step=True, f="f0", v=2, nofill=0)
         A("def_var_fill", step=True, f="f0", v=1, nofill=0)
+    if "meta" in parts:
+        A("put_att", step=True, f="f0", v=-1, name=hx("ga"), xt=M.NC_INT, mt="int", n=2, hex=struct.pack("2i", seed, seed + 1))
     A("enddef", step=True, f="f0")
     A("buffer_attach", f="f0", size=4096)
 
@@ -91,6 +93,12 @@ def build(case, upto=None, fault=None):
     if "coll" in parts:
         percall("data", "put_vara_all(fixed)", lambda r: dict(api="put", form="vara", coll=1, mt="int", f="f0", v=0, start=[r], count=[1], buf=ibuf(r, [seed + r])))
         percall("data", "put_vara_all(record)", lambda r: dict(api="put", form="vara", coll=1, mt="int", f="f0", v=1, start=[r, 0], count=[1, X], buf=ibuf(r, [seed + r * 10 + j for j in range(X)])))
+    if "meta" in parts:
+        # metadata updates in data mode rewrite the whole header (ncmpio_write_header)
+        A("put_att", what="put_att(data mode)", step=True, f="f0", v=-1, name=hx("ga"), xt=M.NC_INT, mt="int", n=2, hex=struct.pack("2i", seed + 5, seed + 6))
+        A("rename_var", what="rename_var(data mode)", step=True, f="f0", v=0, name=hx("fx"))
+        A("rename_att", what="rename_att(data mode)", step=True, f="f0", v=-1, name=hx("ga"), newname=hx("gb"))
+        A("rename_dim", what="rename_dim(data mode)", step=True, f="f0", v=1, name=hx("y"))
     if "varn" in parts:
         percall("data", "put_varn_all(record)", lambda r: dict(api="put", form="varn", coll=1, mt="int", f="f0", v=1, num=2, starts=[[k + r, 0], [k + r, 3]], counts=[[1, 3], [1, 3]], buf=ibuf(r, list(range(6)))))
     if "vard" in parts:
